@@ -19,7 +19,7 @@ LEVEL_TEXT = (
     'frame, a fresh onset inside a run ends and restarts the note, and the min_duration test is >=. Exact frame sets for off-grid '
     'times and the mutual-inverse property are value facts and are not decided.')
 LEVEL_NOTE = 'Trusted: int() truncates toward zero (= floor for non-negative times), math.ceil; numpy append/zeros semantics.'
-TECHNIQUE = 'static analysis: rounding-class recognition and rational normal forms of frame expressions, allocation sibling agreement, dominance (skip before store, padding before loop), guard relations in comparison normal form'
+TECHNIQUE = 'static analysis: rounding-class recognition and rational normal forms of frame expressions, allocation sibling agreement, dominance (skip before store, padding before loop), guard relations in comparison normal form, per-arm def-use closure (a parameter must reach the stored slice bounds in every arm of a dispatch)'
 DESIGN_REF = 'DESIGN.md section 4 (C18)'
 EXPLANATION = ('FRAME rounding classes and minimum length in frames_from_times; ALLOC roll sizes; SKIP dominance of the pitch-range test; WINDOW onset window; '
                'VELO scaling; DEC decoder scale, times, silent frame before the loop, run end, onset restart, min duration.')
@@ -311,6 +311,7 @@ def column_in_range(ctx, fi, loop, v):
 
 
 def run(ctx):
+  position_in_selection_is_not_the_frame(ctx)
   one_column_index(ctx)
   velocity_rows_are_active_rows(ctx)
   ignored_notes_cannot_raise(ctx, 'SKIP/ignored-notes-cannot-raise')
@@ -645,6 +646,45 @@ def delay_reaches_every_mode(ctx, fi, rule='WINDOW/delay-in-every-mode'):
            'undelayed start of the note' % (mode, ', '.join(sorted(assigned_here)), ', '.join(sorted(seen - start))[:120]), construct=cons + ' (%r)' % mode, definite=True)
 
 
+def position_in_selection_is_not_the_frame(ctx, rule='DEC/position-in-selection-is-not-the-frame'):
+  """Location-independent (expected count on today's tree: 0; the kept patch C18_t is the positive example in the thorough tier): the
+  decoders turn a *frame number* into a time and use it to read the velocity of that frame.  `for k, row in enumerate(roll[selected])`
+  numbers the rows of the selection 0, 1, 2, ... - k is the frame number only when nothing was left out.  A counter of an enumerate
+  over `A[S]` (S an index array or mask, not a slice) that is used in arithmetic or as a subscript of another array is reported."""
+  n = 0
+  for q in ('pianoroll_onsets_to_note_sequence', 'pianoroll_to_note_sequence'):
+    try:
+      fi = ctx.func(SL + ':' + q)
+    except Exception:      # pylint: disable=broad-except
+      continue
+    fn = fi.node
+    for lp in ast.walk(fn):
+      if not (isinstance(lp, ast.For) and isinstance(lp.iter, ast.Call) and dotted(lp.iter.func) == 'enumerate' and lp.iter.args and isinstance(lp.target, ast.Tuple) and
+              len(lp.target.elts) == 2 and isinstance(lp.target.elts[0], ast.Name)):
+        continue
+      sel = lp.iter.args[0]
+      if not (isinstance(sel, ast.Subscript) and not isinstance(sel.slice, (ast.Slice, ast.Constant)) and
+              not (isinstance(sel.slice, ast.Tuple) and all(isinstance(e, (ast.Slice, ast.Constant)) for e in sel.slice.elts))):
+        continue
+      if len(lp.iter.args) > 1 or lp.iter.keywords:
+        continue
+      k = lp.target.elts[0].id
+      uses = []
+      for x in ast.walk(ast.Module(body=lp.body, type_ignores=[])):
+        if isinstance(x, ast.Subscript) and any(isinstance(y, ast.Name) and y.id == k for y in ast.walk(x.slice)) and norm_text(x.value) != norm_text(sel.slice):
+          uses.append(x)
+        elif isinstance(x, ast.BinOp) and any(isinstance(y, ast.Name) and y.id == k for y in (x.left, x.right)):
+          uses.append(x)
+      n += 1
+      cons = '%s: a position in a selection is not used as a frame number' % q
+      ctx.ob(rule, fi, uses[0] if uses else lp, not uses, 'the counter of enumerate(%s) is not used as a frame number' % norm_text(sel)[:40] if not uses else
+             '`%s` uses %s, the position of a row within the selection %s, as if it were the frame number: every frame the selection leaves out before it shifts the time and the velocity row read '
+             'for all later notes by one frame' % (norm_text(uses[0])[:50], k, norm_text(sel)[:40]), construct=cons, definite=True)
+  if n == 0:
+    fi = ctx.func(SL + ':pianoroll_onsets_to_note_sequence')
+    ctx.ob(rule, fi, fi.node, True, 'no enumerate over a selected part of a roll in the decoders', construct='a position in a selection is not used as a frame number')
+
+
 def silent_start(ctx, fi):
   """Location-independent: "with onset predictions a note begins only at a predicted onset" - for a pitch that is *not* sounding the
   start condition is the onset prediction of the frame itself.  Only for a pitch that is already sounding does the previous frame
@@ -876,3 +916,4 @@ EXPLANATION += (' Round 7: ' + "DEC/start-frame-zero-is-a-frame; WINDOW/onset-le
 EXPLANATION += (' Rounds 9-10: ' + 'SKIP/column-in-range (pitch 20 / 109 against the guards of every column store); FRAME/scenarios (frames_from_times evaluated on eight cases).')
 EXPLANATION += (' Round 11: ' + 'DEC/one-column-index; VELO/rows-are-the-active-rows.')
 EXPLANATION += (' Round 12: ' + 'two FRAME scenarios with a positive occupancy.')
+EXPLANATION += (' Round 14: ' + 'WINDOW/delay-in-every-mode (per-arm def-use closure from the onset slice bounds to onset_delay_ms); DEC/position-in-selection-is-not-the-frame.')
